@@ -349,6 +349,48 @@ example : ∀ s1 s3, deductCaller exDb exS 12 exEnv = some s1 → postExecution 
   rw [hb, hd] at this
   simpa using this
 
+/-- the same law under the *local* conditions the driver evaluates on the observed balances (the two
+credits fit in 256 bits) instead of the bound on the total -/
+theorem tx_conserves_local {db : Db} {L : List Addr} {s0 s1 s2 s3 : JState} {spec : Nat} {e : FeeEnv}
+    {rewards : Bool} {remaining spent refunded burntExec : Nat}
+    (hn : L.Nodup) (hcL : e.caller ∈ L) (hbL : e.coinbase ∈ L) (hok0 : BalOk db s0)
+    (hfitR : bal db s2 e.caller + specReimbursement e remaining refunded < W)
+    (hfitC : bal db s2 e.coinbase + (if e.coinbase = e.caller then specReimbursement e remaining refunded else 0)
+      + specReward spec e spent refunded < W)
+    (hval : Validated db s0 spec e) (hgas : GasOk e remaining spent refunded)
+    (hded : deductCaller db s0 spec e = some s1)
+    (hexec : total L db s2 + burntExec = total L db s1)
+    (hpost : postExecution db s2 spec e rewards remaining spent refunded = some s3) :
+    total L db s3 + specTxBurn spec e rewards spent refunded burntExec = total L db s0 := by
+  have := Proofs.Ether.tx_conserves_local hn hcL hbL hok0 hfitR hfitC hval hgas hded hexec hpost
+  unfold specTxBurn specReward; omega
+
+example : bal exDb exS exEnv.caller + specReimbursement exEnv 0 0 < W ∧
+    bal exDb exS exEnv.coinbase + (if exEnv.coinbase = exEnv.caller then specReimbursement exEnv 0 0 else 0)
+      + specReward 12 exEnv 21000 0 < W := by rw [W_val]; decide
+
+/-- sections 5 and 6 together: `deduct_caller`, then ANY history of journal operations (the frames of
+the execution with their transfers, creations, self-destructs and reverts), then `reimburse_caller`
+and `reward_beneficiary`: the transaction takes out of the sum exactly the burnt base fee, the blob fee,
+what non-reverted self-destructs naming themselves burnt, and the withheld beneficiary share -/
+theorem tx_with_any_execution_conserves {db : Db} {L : List Addr} {s0 s1 s3 : JState} {r2 : Run}
+    {cps : List Checkpoint} {ops : List Op} {spec : Nat} {e : FeeEnv} {rewards : Bool}
+    {remaining spent refunded : Nat}
+    (hn : L.Nodup) (hcL : e.caller ∈ L) (hbL : e.coinbase ∈ L)
+    (hok0 : BalOk db s0) (hj0 : JB s0 = []) (hSum : total L db s0 < W)
+    (hval : Validated db s0 spec e) (hgas : GasOk e remaining spent refunded)
+    (hded : deductCaller db s0 spec e = some s1)
+    (hL : ∀ op ∈ ops, ∀ a ∈ opAddrs op, a ∈ L) (hf : FundedRun db ⟨s1, cps⟩ ops)
+    (hrun : run db ⟨s1, cps⟩ ops = some r2)
+    (hpost : postExecution db r2.js spec e rewards remaining spent refunded = some s3) :
+    total L db s3 + specTxBurn spec e rewards spent refunded (burnt r2.js) = total L db s0 := by
+  have := tx_history_conserves hn hcL hbL hok0 hj0 hSum hval hgas hded hL hf hrun hpost
+  unfold specTxBurn specReward; omega
+
+example : ((deductCaller exDb exS 12 exEnv).bind fun s1 =>
+    (run exDb ⟨s1, []⟩ [.checkpoint, .transfer 1 2 5, .selfdestruct 2 2, .commit]).bind fun r2 =>
+      postExecution exDb r2.js 12 exEnv false 0 21000 0).isSome = true := rfl
+
 /-- the three legs in closed form under the same hypotheses (the driver's Spec column) -/
 theorem deduct_caller_exact {db : Db} {s0 s1 : JState} {spec : Nat} {e : FeeEnv} (hok : BalOk db s0)
     (hval : Validated db s0 spec e) (h : deductCaller db s0 spec e = some s1) :
